@@ -79,6 +79,7 @@ pub trait Flavor: 'static {
     fn s_downgrade(s: &Self::S) -> Self::W;
     fn w_upgrade(w: &Self::W) -> Option<Self::S>;
     fn w_clone(w: &Self::W) -> Self::W;
+    fn w_clone_from(w: &mut Self::W, src: &Self::W);
     /// blocking in the sync flavour: only called when no conflicting guard is held
     fn s_read(s: &'static Self::S) -> Option<Self::RG>;
     fn s_write(s: &'static Self::S) -> Option<Self::WG>;
@@ -230,6 +231,9 @@ impl Flavor for SyncF {
     }
     fn w_clone(w: &Self::W) -> Self::W {
         w.clone()
+    }
+    fn w_clone_from(w: &mut Self::W, src: &Self::W) {
+        w.clone_from(src)
     }
     fn s_read(s: &'static Self::S) -> Option<Self::RG> {
         Some(s.read())
@@ -411,6 +415,9 @@ impl Flavor for AsyncF {
     }
     fn w_clone(w: &Self::W) -> Self::W {
         w.clone()
+    }
+    fn w_clone_from(w: &mut Self::W, src: &Self::W) {
+        w.clone_from(src)
     }
     fn s_read(s: &'static Self::S) -> Option<Self::RG> {
         now(s.read())
